@@ -181,6 +181,8 @@ def spec_violated(rep):
             sh.delete(f[1])
         elif f[0] == "q" and len(f) == 9 and i == last:
             r = split_reply(impl)
+            if impl.startswith("conc-diff"):
+                return "`%s`: concurrent first queries on a not yet built bucket saw a different answer than a lone caller: %s" % (op, impl)
             if r is None:
                 return "`%s` answered `%s`" % (op, impl)
             b, s = canon(sh, f[1], r[0]), canon(sh, f[1], r[1])
